@@ -49,7 +49,9 @@ def main():
         open(os.path.join(root, '.built'), 'w').write('seeded')
         for d in os.listdir(main_root):
             if d.startswith('home-') and d != 'home-build':
-                subprocess.run(['cp', '-a', os.path.join(main_root, d),
+                # hard links: the JIT cache is ~15 GB and only ever gets
+                # new files (modules are named by source hash)
+                subprocess.run(['cp', '-al', os.path.join(main_root, d),
                                 os.path.join(root, d)], check=False,
                                stderr=subprocess.DEVNULL)
     env = dict(os.environ, VERIF_REPO=src, VERIF_BUILD_ROOT=root,
